@@ -40,6 +40,8 @@ def cases(draw, method):
     base['history'] = draw(history(method))
     base['lr'] = draw(st.sampled_from([0.01, 0.05, 0.2]))
     base['eval_first'] = draw(st.booleans())
+    # the observation passes run with autograd on (a training loop) or off (validation)
+    base['obs_grad'] = draw(st.booleans())
     return base
 
 
@@ -52,32 +54,34 @@ def apply_option(method, m, name, val):
         m.update_softmax_options(**{name: val})
 
 
-def observe(ad: Adapter, m, res, tag, eval_first=False):
+def observe(ad: Adapter, m, res, tag, eval_first=False, grad=False):
     """Training-mode and eval-mode observations (soft / Gumbel sampling depends on temperature
     and flags; eval-mode uses the arg-max decisions).  eval_first: the very first forward pass
     after restoring is an eval-mode one (validation right after resuming), so nothing a
     training-mode pass would refresh is refreshed before the outputs are compared."""
     import torch
+    import contextlib
     x = ad.probe(seed=5)
     obs = {}
+    ctx = contextlib.nullcontext if grad else torch.no_grad
     for phase in (('eval', 'train') if eval_first else ('train', 'eval')):
         if phase == 'train':
             m.train()
             torch.manual_seed(4241)
-            with torch.no_grad():
+            with ctx():
                 yt = must(res, f'{tag}-train-forward', ng.call, m, x)
             if yt is None:
                 return None
-            obs['train_output'] = yt.clone()
+            obs['train_output'] = yt.detach().clone()
             obs['train_costs'] = {n: float(m.get_cost(n)) for n in ad.specs}
         else:
             m.eval()
             torch.manual_seed(4242)
-            with torch.no_grad():
+            with ctx():
                 y = must(res, f'{tag}-forward', ng.call, m, x)
             if y is None:
                 return None
-            obs['output'] = y.clone()
+            obs['output'] = y.detach().clone()
             obs['costs'] = {n: float(m.get_cost(n)) for n in ad.specs}
             obs['summary'] = repr(m.summary())
     m.eval()
@@ -165,8 +169,9 @@ def oracle(case) -> Result:
         res.bad('load-state-dict-failed', message=str(e)[:300])
         return res
     ef = bool(case.get('eval_first', False))
-    oa = observe(ad, A, res, 'original', ef)
-    ob = observe(ad, B, res, 'restored', ef)
+    og = bool(case.get('obs_grad', False))
+    oa = observe(ad, A, res, 'original', ef, og)
+    ob = observe(ad, B, res, 'restored', ef, og)
     if oa is None or ob is None:
         return res
     if not same(oa['output'], ob['output']):
@@ -192,7 +197,8 @@ def oracle(case) -> Result:
     res.ev(f"steps:{min(steps, 4)}", *[f"opt:{k}" for k in opts],
            'decision-changed' if changed else 'decision-unchanged',
            'checkpoint-in-train-mode' if ckpt_training else 'checkpoint-in-eval-mode',
-           'first-pass-after-restore:eval' if ef else 'first-pass-after-restore:train')
+           'first-pass-after-restore:eval' if ef else 'first-pass-after-restore:train',
+           'observed-with-autograd' if og else 'observed-under-no_grad')
     res.obs = {'steps': steps, 'options': opts, 'state_dict_entries': len(sd)}
     return res
 
@@ -215,7 +221,8 @@ CHECK = Check(
           "state, not an observable)}; then torch.save -> "
           "torch.load of the state_dict, a fresh wrapper built from the pristine seed with the same "
           "constructor arguments and the same final Python-level options (the MPS temperature, "
-          "kept in a buffer, is NOT re-applied), load_state_dict(strict=True), one forward; eval "
+          "kept in a buffer, is NOT re-applied), load_state_dict(strict=True), one training-mode and one eval-mode forward in a drawn "
+          "order, with autograd on or under no_grad (drawn); eval "
           "output, all cost values, summary and exported network (structure + output) must be "
           "bit-identical to the original's. Non-trivial = at least one step that changed a "
           "discrete decision, or an option changed before the checkpoint; distinct by case hash."),
